@@ -1,16 +1,18 @@
-import FeatherModel.Lemmas.MergeJarTotal
+import FeatherModel.Lemmas.MergeJarNoPanic
 
 /-!
 # C13 — client/server jar merge is a faithful, annotated union
 Property theorems only. Model: `FeatherModel/Model/MergeJar.lean` (mirrors `dukebox/src/merge.rs`), domains and
 observation functions: `FeatherModel/Model/MergeJarDom.lean`.
 
-Reading guide. `mergeJar client server : Outcome Jar` has three outcomes: `ok r`, `err` (the `Result::Err` of the Rust
-function) and `panic site` (an `assert_eq!`/`panic!` of `merge_from_client` or of the InnerClasses closure fired).
-Every statement about the merged jar / class is made for the outcome `ok r`; `merge_class_total_partial` /
-`merge_jar_total_partial` give the decidable domain on which the outcome *is* `ok` (`merge_class_ok_iff`: for classes
-with duplicate-free members this is exactly the domain), and the `_witness` theorems show that outside of it the real
-code's panic is reachable by ordinary inputs (two jars whose versions of one class differ in an access flag).
+Reading guide. `mergeJar client server : Outcome Jar` has the outcomes `ok r`, `err` (the `Result::Err` of the Rust
+function) and `panic site`. Since 9bfd462 (`merge_from_client` and the InnerClasses closure `bail!` instead of
+`assert_eq!`/`panic!`) the only panic site left in merge.rs is the `unreachable!()` arm of `merge_slice`;
+`merge_class_no_panic` / `merge_jar_no_panic` prove for *all* inputs that it is never taken. Every statement about the
+merged jar / class is made for the outcome `ok r`; `merge_class_total` / `merge_jar_total` give the decidable domain on
+which the outcome is `ok`, `merge_class_ok_iff` / `merge_class_err_iff` show that for classes with duplicate-free members
+this domain is exact: outside of it the merge refuses with a clean `Err` (the `*_regression_fixed` theorems are the
+inputs on which the code used to panic).
 -/
 
 deriving instance DecidableEq for MergeJar.Outcome
@@ -232,19 +234,35 @@ theorem itf_marks {c s r : Class} (h : mergeClass c s = Outcome.ok r) :
 theorem class_inners {c s r : Class} (h : mergeClass c s = Outcome.ok r) : ∀ i ∈ r.inners, i ∈ c.inners ∨ i ∈ s.inners :=
   mergeInners_mem (mergeClass_parts h).2.2.1
 
-/-- proved domain of the class merge: same version, access flags, name, super class, deprecated/synthetic; shared members
-agree on deprecated/synthetic; shared InnerClasses entries are equal; keys duplicate-free. There the merge returns `Ok`.
-`_partial`: the property text speaks about every pair of differing classes -/
-theorem merge_class_total_partial {c s : Class} (h : mergeOk c s = true) : ∃ r, mergeClass c s = Outcome.ok r :=
+/-- the domain of the class merge: same version, access flags, name, super class, deprecated/synthetic; shared members
+agree on deprecated/synthetic; shared InnerClasses entries are equal; keys duplicate-free. There the merge returns `Ok` -/
+theorem merge_class_total {c s : Class} (h : mergeOk c s = true) : ∃ r, mergeClass c s = Outcome.ok r :=
   mergeClass_total h
 
 /-- … and for classes with duplicate-free member lists that domain is exactly where the merge returns `Ok` -/
 theorem merge_class_ok_iff {c s : Class} (hk : keysOk c s = true) :
     (∃ r, mergeClass c s = Outcome.ok r) ↔ mergeOk c s = true := mergeClass_ok_iff hk
 
-/-- no panic when everything the code `assert_eq!`s agrees: the outcome is then `Ok` or a clean `Err` -/
-theorem merge_class_no_panic {c s : Class} (h : noPanicB c s = true) :
-    mergeClass c s = Outcome.err ∨ ∃ r, mergeClass c s = Outcome.ok r := mergeClass_noPanic h
+/-- no panic, for every pair of classes (full strength, no hypothesis): the outcome is `Ok` or a clean `Err` -/
+theorem merge_class_no_panic (c s : Class) : ∀ site, mergeClass c s ≠ Outcome.panic site := noPanic_mergeClass c s
+
+/-- so outside the domain the merge refuses cleanly: `Err` exactly when not `mergeOk` -/
+theorem merge_class_err_iff {c s : Class} (hk : keysOk c s = true) :
+    mergeClass c s = Outcome.err ↔ mergeOk c s = false := by
+  have hok := mergeClass_ok_iff hk
+  constructor
+  · intro he
+    cases hm : mergeOk c s with
+    | false => rfl
+    | true =>
+      obtain ⟨r, hr⟩ := hok.mpr hm
+      rw [he] at hr; cases hr
+  · intro hm
+    cases ok_or_err_of_noPanic (noPanic_mergeClass c s) with
+    | inl h => exact h
+    | inr h =>
+      have := hok.mp h
+      rw [hm] at this; cases this
 
 /-- a small class used by the witnesses -/
 def wClass : Class :=
@@ -255,26 +273,27 @@ def wClass : Class :=
 def wField (dep : Bool) : Member :=
   { name := jstr "f", desc := jstr "I", access := 1, deprecated := dep, synthetic := false, payload := 0, anns := [] }
 
-/-- DEFECT CANDIDATE (reachable panic): the same class, `public` on the client and `public final` on the server -/
-theorem merge_class_access_panic_witness :
-    mergeClass wClass { wClass with access := 0x31 } = Outcome.panic "merge_from_client" := by decide
+/-- regression (fixed by 9bfd462, used to panic in `merge_from_client`): the same class, `public` on the client and
+`public final` on the server, is refused with `Err` -/
+theorem merge_class_access_regression_fixed :
+    mergeClass wClass { wClass with access := 0x31 } = Outcome.err := by decide
 
 /-- … compiled for different class-file versions on the two sides -/
-theorem merge_class_version_panic_witness :
-    mergeClass wClass { wClass with version := 61 } = Outcome.panic "merge_from_client" := by decide
+theorem merge_class_version_regression_fixed :
+    mergeClass wClass { wClass with version := 61 } = Outcome.err := by decide
 
 /-- … a shared field `@Deprecated` on one side only -/
-theorem merge_class_member_panic_witness :
+theorem merge_class_member_regression_fixed :
     mergeClass { wClass with fields := [wField false] } { wClass with fields := [wField true] } =
-      Outcome.panic "merge_from_client" := by decide
+      Outcome.err := by decide
 
-/-- … an InnerClasses entry for the same inner class with different flags (`assert_eq!` in the `inner` closure) -/
-theorem merge_class_inner_panic_witness :
+/-- … an InnerClasses entry for the same inner class with different flags (used to panic in the `inner` closure) -/
+theorem merge_class_inner_regression_fixed :
     mergeClass { wClass with inners := [{ name := jstr "net/minecraft/A$B", flags := 8 }] }
                { wClass with inners := [{ name := jstr "net/minecraft/A$B", flags := 9 }] } =
-      Outcome.panic "inner_classes" := by decide
+      Outcome.err := by decide
 
-/-- a different super class is a clean error, not a panic -/
+/-- a different super class is (and always was) a clean error -/
 theorem merge_class_super_err_witness :
     mergeClass wClass { wClass with super := some (jstr "net/minecraft/B") } = Outcome.err := by decide
 
@@ -430,19 +449,22 @@ theorem entry_manifest_server {client server r : Jar} (h : mergeJar client serve
     (MANIFEST, { attr := e.attr, content := Content.other MANIFEST_BYTES }) ∈ r :=
   mergeJar_row h (combine_server_only hm ((get_none_iff MANIFEST client).mpr hnc)) (mergeEntry_manifest_row _)
 
-/-- proved domain of the jar merge (`jarDomain`: for every name both jars have, other than the manifest and signature
-files, the kinds agree and two differing classes satisfy `mergeOk`): there `merge` returns `Ok`.
-`_partial` because of the panic region of the class merge -/
-theorem merge_jar_total_partial {client server : Jar} (h : jarDomain client server = true) :
+/-- the domain of the jar merge (`jarDomain`: for every name both jars have, other than the manifest and signature
+files, the kinds agree and two differing classes satisfy `mergeOk`): there `merge` returns `Ok` -/
+theorem merge_jar_total {client server : Jar} (h : jarDomain client server = true) :
     ∃ r, mergeJar client server = Outcome.ok r := mergeJar_total h
+
+/-- no panic, for every pair of jars (full strength, no hypothesis) -/
+theorem merge_jar_no_panic (client server : Jar) : ∀ site, mergeJar client server ≠ Outcome.panic site :=
+  noPanic_mergeJar client server
 
 def wEntry (c : Class) : Entry := { attr := 0, content := Content.cls ClsRepr.parsed c }
 
-/-- DEFECT CANDIDATE: two ordinary jars, one class `public` in one and `public final` in the other: `merge` panics -/
-theorem merge_jar_panic_witness :
+/-- regression (fixed by 9bfd462, used to panic): two ordinary jars, one class `public` in one and `public final` in the
+other: `merge` returns `Err` -/
+theorem merge_jar_regression_fixed :
     mergeJar [(jstr "net/minecraft/A.class", wEntry wClass)]
-             [(jstr "net/minecraft/A.class", wEntry { wClass with access := 0x31 })] =
-      Outcome.panic "merge_from_client" ∧
+             [(jstr "net/minecraft/A.class", wEntry { wClass with access := 0x31 })] = Outcome.err ∧
     jarDomain [(jstr "net/minecraft/A.class", wEntry wClass)]
               [(jstr "net/minecraft/A.class", wEntry { wClass with access := 0x31 })] = false := by decide
 
